@@ -28,6 +28,8 @@ type Sched struct {
 	nSwitch  int
 	lastTask *Task
 	rootGid  uint64
+	StepHook func(step int) // called by the scheduler goroutine before every step, all tasks parked or blocked
+	GCAtStep int // scheduler step before which a garbage collection is forced (-1: none)
 }
 
 type Task struct {
@@ -45,7 +47,7 @@ type Task struct {
 }
 
 func NewSched(r *Run) *Sched {
-	return &Sched{r: r, byGid: map[uint64]*Task{}, abort: make(chan struct{}), SwitchP: [2]int{1, 1}, rootGid: curGid()}
+	return &Sched{r: r, byGid: map[uint64]*Task{}, abort: make(chan struct{}), SwitchP: [2]int{1, 1}, rootGid: curGid(), GCAtStep: -1}
 }
 
 func curGid() uint64 {
@@ -155,6 +157,14 @@ func (s *Sched) Run(maxSteps int, tick func()) string {
 		}
 		synctest.Wait()
 		Beat("sched")
+		if s.StepHook != nil {
+			s.StepHook(step)
+		}
+		if step == s.GCAtStep {
+			// every task is parked or blocked: a collection (finalizers included) at this very point of the history
+			ForceGC()
+			s.r.Fault("gc_at_step")
+		}
 		s.mu.Lock()
 		if len(s.pending) > 0 {
 			// index newly adopted goroutines in a replayable order
